@@ -1,0 +1,17 @@
+//go:build verif
+
+package redis
+
+// Contracts for the verification machinery in /verif (build tag "verif").
+
+//@ func hash
+//@   arith bv
+//@   properties C11
+//@   nopanic
+//@   ensures slot_spec: result == digest.SpecHashSlot(key)
+//@   loop 1:
+//@     invariant bounds: 0 <= s && s <= len(key)
+//@     invariant no_open_before: digest.SpecFirstIndex(key, '{', 0) == digest.SpecFirstIndex(key, '{', s)
+//@   loop 2:
+//@     invariant bounds: s + 1 <= e && e <= len(key)
+//@     invariant no_close_before: digest.SpecFirstIndex(key, '}', s + 1) == digest.SpecFirstIndex(key, '}', e)
